@@ -11,6 +11,16 @@ import (
 
 type gID = tables.GlyphID
 
+// clampGID maps the glyph indices which do not fit in 16 bits
+// to 0xFFFF, which is never a valid glyph (maxp.numGlyphs <= 0xFFFF),
+// so that they are not mistaken for the glyph gid & 0xFFFF.
+func clampGID(gid GID) GID {
+	if gid > 0xFFFF {
+		return 0xFFFF
+	}
+	return gid
+}
+
 func (f *Font) GetGlyphContourPoint(glyph GID, pointIndex uint16) (x, y int32, ok bool) {
 	// harfbuzz seems not to implement this feature
 	return 0, 0, false
@@ -251,8 +261,10 @@ func (f *Face) getGlyphAdvanceVar(gid gID, isVertical bool) float32 {
 }
 
 func (f *Face) HorizontalAdvance(gid GID) float32 {
+	gid = clampGID(gid)
 	advance := f.getBaseAdvance(gID(gid), f.hmtx, false)
-	if !f.isVar() {
+	if !f.isVar() || int(gid) >= len(f.hmtx.Metrics)+len(f.hmtx.LeftSideBearings) {
+		// an out of range glyph has no variation (as in Harfbuzz)
 		return float32(advance)
 	}
 	if f.hvar != nil {
@@ -272,9 +284,11 @@ func (f *Face) isVar() bool {
 func (f *Font) HasVerticalMetrics() bool { return !f.vmtx.IsEmpty() }
 
 func (f *Face) VerticalAdvance(gid GID) float32 {
+	gid = clampGID(gid)
 	// return the opposite of the advance from the font
 	advance := f.getBaseAdvance(gID(gid), f.vmtx, true)
-	if !f.isVar() {
+	if !f.isVar() || int(gid) >= len(f.vmtx.Metrics)+len(f.vmtx.LeftSideBearings) {
+		// an out of range glyph has no variation (as in Harfbuzz)
 		return -float32(advance)
 	}
 	if f.vvar != nil {
@@ -310,6 +324,7 @@ func (f *Font) GlyphHOrigin(GID) (x, y int32, found bool) {
 }
 
 func (f *Face) GlyphVOrigin(glyph GID) (x, y int32, found bool) {
+	glyph = clampGID(glyph)
 	x = int32(f.HorizontalAdvance(glyph) / 2)
 
 	if f.vorg != nil {
@@ -426,6 +441,9 @@ func (f *Face) getExtentsFromCff2(glyph gID) (GlyphExtents, bool) {
 }
 
 func (f *Face) glyphExtentsRaw(glyph GID) (GlyphExtents, bool) {
+	if glyph > 0xFFFF { // not a valid glyph: do not truncate it
+		return GlyphExtents{}, false
+	}
 	out, ok := f.getExtentsFromSbix(gID(glyph), f.xPpem, f.yPpem)
 	if ok {
 		return out, ok
